@@ -221,14 +221,21 @@ def encodeDelta (legacy : Bool) (p n : Style) : List Seq :=
   (attrDelta p.attr n.attr ++
   (if p.ulStyle != n.ulStyle then [fmt Sequences.ulStyleSet_t [n.ulStyle]] else []))))
 
-/-- styled_string.go `StyledString.Encode`: same shape with its own (constant) colon formats. -/
-def ssDelta (p n : Style) : List Seq :=
+/-- The extended-colour format `StyledString.Encode` uses in one of its four slots: which constant it
+    is, and whether it is one of the mutable variables (then the legacy quirk rewrites it), is extracted
+    (`Gen.SgrCases.ssEncode…`). Currently: private constants of styled_string.go, not mutable. -/
+def ssT (legacy mutable : Bool) (t : Template) : Template := q (legacy && mutable) t
+
+/-- styled_string.go `StyledString.Encode`: same shape as `EncodeCells` with its own colour formats. -/
+def ssDelta (legacy : Bool) (p n : Style) : List Seq :=
   (if p.fg != n.fg then
      colourSeq Sequences.fgReset_t Sequences.fgSet_t Sequences.fgBrightSet_t
-       Sequences.ssFgIndexSet_t Sequences.ssFgRGBSet_t n.fg else []) ++
+       (ssT legacy SgrCases.ssEncodeFgIndexMutable SgrCases.ssEncodeFgIndex_t)
+       (ssT legacy SgrCases.ssEncodeFgRGBMutable SgrCases.ssEncodeFgRGB_t) n.fg else []) ++
   ((if p.bg != n.bg then
      colourSeq Sequences.bgReset_t Sequences.bgSet_t Sequences.bgBrightSet_t
-       Sequences.ssBgIndexSet_t Sequences.ssBgRGBSet_t n.bg else []) ++
+       (ssT legacy SgrCases.ssEncodeBgIndexMutable SgrCases.ssEncodeBgIndex_t)
+       (ssT legacy SgrCases.ssEncodeBgRGBMutable SgrCases.ssEncodeBgRGB_t) n.bg else []) ++
   ((if p.ul != n.ul then ulColourSeq n.ul else []) ++
   (attrDelta p.attr n.attr ++
   (if p.ulStyle != n.ulStyle then [fmt Sequences.ulStyleSet_t [n.ulStyle]] else []))))
@@ -267,7 +274,7 @@ def encodeFrom {γ : Type} (delta : Style → Style → List Seq) (cursor : Styl
   | c :: cs => (delta cursor c.st).map .sgr ++ (.text c.g :: encodeFrom delta c.st cs)
 
 def encodeCells {γ : Type} (legacy : Bool) (cs : List (Cell γ)) : List (Tok Seq γ) := encodeFrom (encodeDelta legacy) {} cs
-def ssEncode {γ : Type} (cs : List (Cell γ)) : List (Tok Seq γ) := encodeFrom ssDelta {} cs
+def ssEncode {γ : Type} (legacy : Bool) (cs : List (Cell γ)) : List (Tok Seq γ) := encodeFrom (ssDelta legacy) {} cs
 
 /-- One rendered frame on a fresh screen: the pen starts at default, `writer.Flush` always ends
     the frame with `sgrReset`. (Cursor movement and mode sequences are not part of this model.) -/
